@@ -21,6 +21,9 @@ var_or_const_pattern = re.compile(r"([XC])_(\d+)", re.IGNORECASE)
 int_pattern = re.compile(r"\d+")  # matches ###
 non_unary_op_pattern = re.compile(r"([*/^()])")  # matches *, /, ^, (, or )
 negative_pattern = re.compile(r"-([^\s\d])")  # matches -N where N = non-number
+# matches -N^ where N = number that is the base of a power (-2^x is -(2^x))
+negative_base_pattern = re.compile(
+    r"(?<![\w.)])-(\d+\.?\d*(?:e[+-]?\d+)?)\s*\^", re.IGNORECASE)
 
 
 def infix_to_postfix(infix_tokens):
@@ -153,6 +156,8 @@ def eq_string_to_infix_tokens(eq_string):
 
     eq_string = negative_pattern.sub(r"-1 * \1", eq_string)
     # replace -token with -1.0 * token if token != a number
+    eq_string = negative_base_pattern.sub(r"-1 * \1^", eq_string)
+    # the sign of a number raised to a power applies to the power
 
     tokens = non_unary_op_pattern.sub(r" \1 ", eq_string).split(" ")
     tokens = [x.lower() for x in tokens if x != ""]
